@@ -83,7 +83,7 @@ def encode_value(v: Val):
 def build(rng, tree: dict, *, ntables: int = 1, seqs=(3, 7), stale_tables: int = 0, free_prob: float = 0.15, table_order: str = "shuffle",
           extra_object_tables: int = 0, alignment: int = 0x1000, trailer_mode: str = "12", version: int = 0x400, replay_entries: int = 0,
           stale_same_layout: bool = True, first_table_pages: int = 1, pad_objects: int = 0,
-          inactive_slot: str = "valid", emptied_tables: int = 0):
+          inactive_slot: str = "valid", emptied_tables: int = 0, backward_chain: bool = False):
     # first_table_pages: room reserved for the first object table at 0x2000 (its length is given by its entry count, not by
     # a fixed page); pad_objects: that many additional unallocated entries, so that a single table can exceed one page
     """Serialise `tree` ({key: Val | dict}) into a HyperVStorage file. -> (bytes, meta)"""
@@ -248,9 +248,19 @@ def build(rng, tree: dict, *, ntables: int = 1, seqs=(3, 7), stale_tables: int =
             break
         k = rng.randrange(1, len(first))
         moved, first = first[:k], first[k:]
-        eoff = alloc(8 + 18 * len(moved))
+        # room for one more entry (a link to another table, see backward_chain)
+        eoff = alloc(8 + 18 * (len(moved) + 1))
         extra_tabs.append((eoff, moved))
         first.insert(rng.randrange(0, len(first) + 1), (O_OBJTABLE, eoff, -(-(8 + 18 * len(moved)) // alignment) * alignment, 1))
+
+    if backward_chain and len(extra_tabs) >= 2:
+        # tables chain in any direction: the first table links to a table high up in the file, which links back to one that
+        # lies before it
+        (lo_off, _lo), (hi_off, hi_moved) = extra_tabs[0], extra_tabs[-1]
+        link = next((e_ for e_ in first if e_[0] == O_OBJTABLE and e_[1] == lo_off), None)
+        if link is not None:
+            first.remove(link)
+            hi_moved.insert(rng.randrange(0, len(hi_moved) + 1), link)
 
     def objtable(ents, sig=SIG_OBJTABLE):
         return struct.pack("<II", sig, len(ents)) + b"".join(struct.pack("<BIQIB", t, 0, o, s, a) for t, o, s, a in ents)
@@ -291,5 +301,6 @@ def build(rng, tree: dict, *, ntables: int = 1, seqs=(3, 7), stale_tables: int =
         b = objtable(moved)
         out[eoff : eoff + len(b)] = b
     meta = {"tables": ntables, "entries": len(flat), "file_objects": len(files), "object_entries": len(objs), "extra_object_tables": len(extra_tabs),
-            "replay_off": replay_off, "table_offsets": [o for o, _ in table_blobs], "seq_of": seq_of, "size": total}
+            "replay_off": replay_off, "table_offsets": [o for o, _ in table_blobs], "seq_of": seq_of, "size": total,
+            "extra_table_offsets": [o for o, _ in extra_tabs], "backward_chain": bool(backward_chain and len(extra_tabs) >= 2)}
     return bytes(out), meta
